@@ -154,11 +154,98 @@ func TestMutates(t *testing.T) {
 					hits[k]++
 					if k == "marks" {
 						j := strings.Index(tx, k)
-						fmt.Println(tx[max(0, j-30):j+10])
+						fmt.Println(tx[max(0, j-30) : j+10])
 					}
 				}
 			}
 		}
 	}
 	fmt.Println(hits)
+}
+
+func TestHyph(t *testing.T) {
+	if os.Getenv("C15_HY") == "" {
+		t.Skip()
+	}
+	wr.Quiet()
+	tot, hy, hyd := 0, 0, 0
+	for i := 0; i < 30; i++ {
+		in := genCase(1, i, "quick")
+		for di := range in.Docs {
+			d := &in.Docs[di]
+			if !d.Biased || !strings.Contains(d.HTML, `class="hy"`) {
+				continue
+			}
+			tot++
+			o, _ := render(d, renderOpts{})
+			found := false
+			for _, l := range o.Lines {
+				if strings.HasPrefix(l, "DrawText") && (strings.Contains(l, "-\"") || strings.Contains(l, "‐\"")) {
+					found = true
+				}
+			}
+			if found {
+				hyd++
+			}
+			hy++
+		}
+	}
+	fmt.Println("docs with class hy:", tot, "rendered", hy, "with a hyphenated line:", hyd)
+}
+
+func TestConc(t *testing.T) {
+	if os.Getenv("C15_CONC") == "" {
+		t.Skip()
+	}
+	from, _ := strconv.Atoi(os.Getenv("C15_CONC"))
+	in := genCase(1, from, "quick")
+	nh := 0
+	for _, d := range in.Docs {
+		if strings.Contains(d.HTML, `class="hy"`) {
+			nh++
+		}
+	}
+	raw, _ := json.Marshal(in)
+	res := check(raw)
+	fmt.Println("kind", in.Kind, "hy docs", nh, "verdict", res.Verdict, res.Sig, trunc(res.Msg, 3000), res.Counters)
+}
+
+func TestColdHy(t *testing.T) {
+	if os.Getenv("C15_COLD") == "" {
+		t.Skip()
+	}
+	wr.Quiet()
+	var docs []cdoc
+	for i := 0; len(docs) < 4; i++ {
+		in := genCase(1, i, "quick")
+		for _, d := range in.Docs {
+			if d.Biased && d.Engine == "" && strings.Contains(d.HTML, `class="hy"`) && len(docs) < 4 {
+				docs = append(docs, d)
+			}
+		}
+	}
+	done := make(chan string)
+	for g := 0; g < 4; g++ {
+		go func(g int) {
+			o, _ := render(&docs[g], renderOpts{})
+			done <- o.Kind
+		}(g)
+	}
+	for g := 0; g < 4; g++ {
+		fmt.Println(<-done)
+	}
+	fmt.Println("race log:", raceLogPath(), raceLogSize())
+}
+
+func TestRefFirst(t *testing.T) {
+	for i := 120; i < 136; i++ {
+		in := genCase(1, i, "quick")
+		nh := 0
+		for _, d := range in.Docs {
+			if d.Engine == "" && strings.Contains(d.HTML, `class="hy"`) {
+				nh++
+			}
+		}
+		fmt.Println(i, "refFirst", hashStr(in.Docs[0].HTML)[0]%3 == 0, "pango hy docs", nh)
+	}
 }
